@@ -69,6 +69,23 @@ CLAIMED["C09"] = dict(
         "time and append times, and the filer->assign plumbing are not decided here. " + TRUST,
    design="DESIGN.md §4 C09")
 
+CLAIMED["C23"] = dict(
+   text="Proof-level kernel: mergePathConf meets the field-wise contract from the statement for all seven settings (a field of the longer rule "
+        "overrides when it is set, nothing else is written - checked frame); a lemma composes two merges into 'the longer rule wins per field, else "
+        "the shorter, else the default'; the visitors handed to the prefix trie merge every visited rule without stopping the traversal and copy "
+        "every rule except the one whose prefix equals the deleted prefix.",
+   note="Assumed (library): ptrie.MatchPrefix visits exactly the stored prefixes of the path in increasing length and Walk visits every rule; the "
+        "n-rule statement is the fold of the proved two-rule step. " + TRUST,
+   design="DESIGN.md §4 C23")
+CLAIMED["C35"] = dict(
+   text="Proof-level kernel of the sequential behaviour: vidMap.addLocation keeps the per-volume list duplicate free by Url, keeps existing entries in "
+        "place and appends a new location exactly when its Url is absent; deleteLocation shortens the list by exactly one entry when the Url is "
+        "present, every remaining entry is the old entry at the same or the next position, and the array shared with slices handed out earlier by "
+        "GetLocations is not rewritten; GetLocations returns the stored list.",
+   note="Not decided here: schedules (locks are ghost), the same-data-center-first ordering of LookupVolumeServerUrl (needs permutation reasoning), and "
+        "three clauses of deleteLocation on which all solvers time out (listed in the contract file). " + TRUST,
+   design="DESIGN.md §4 C35")
+
 NA = {
  "C03":"crash-point property over byte-level truncation of two persistent files; no per-function contract within reach decides it (DESIGN §4 C03)",
  "C10":"needs inductive tree predicates and cardinality reasoning over interface-typed nodes in pointer maps with randomised picking (DESIGN §4 C10)",
